@@ -41,7 +41,7 @@ GOENV = {
 #  shards: (quick, thorough); checks: (quick, thorough) value of -rapid.checks
 #  steps: -rapid.steps; timeout: seconds (quick, thorough)
 CFG = {
-    "C01": dict(pkg="core", shards=(8, 16), oracle_selfcheck=True, tests=[
+    "C01": dict(pkg="core", shards=(8, 16), oracle_selfcheck=True, fuzz=dict(pkg="core", target="^FuzzC01Soup$", seconds=(0, 120)), tests=[
         dict(test="^TestC01Step$", checks=(8000, 40000)),
         dict(test="^TestC01Soup$", checks=(60000, 2000000))]),
     "C02": dict(pkg="core", test="^TestC02$", shards=(1, 1), checks=(1, 1)),
@@ -293,7 +293,7 @@ def _run_check(prop, tier, cfg, seed, ti, work, t0):
             print("FUZZ-STAGE-FAILED without violation file (inconclusive):")
             print(tail(r.stdout))
             inconclusive = True
-    merged = dict(evaluations=0, distinct=0, labels={}, known={}, known_text={}, samples=[], notes=[], rule="",
+    merged = dict(evaluations=0, distinct=0, labels={}, known={}, known_text={}, samples=[], notes=[], rules=[],
                   exhaustive=True, extra={})
     nstats = 0
     for s, sd, p, lf in procs:
@@ -331,7 +331,8 @@ def _run_check(prop, tier, cfg, seed, ti, work, t0):
                 for n in st.get("notes") or []:
                     if n not in merged["notes"]:
                         merged["notes"].append(n)
-                merged["rule"] = st.get("rule") or merged["rule"]
+                if st.get("rule") and st["rule"] not in merged["rules"]:
+                    merged["rules"].append(st["rule"])
                 merged["exhaustive"] = merged["exhaustive"] and bool(st.get("exhaustive"))
                 for k, v in (st.get("extra") or {}).items():
                     if isinstance(v, (int, float)) and isinstance(merged["extra"].get(k, 0), (int, float)):
@@ -347,7 +348,7 @@ def _run_check(prop, tier, cfg, seed, ti, work, t0):
         "property_id": prop, "tier": tier, "seed": seed, "level": cfg.get("level", LEVEL_DEFAULT),
         "coverage": {
             "evaluations": merged["evaluations"], "distinct_nontrivial": merged["distinct"],
-            "rule": merged["rule"], "samples": merged["samples"][:8],
+            "rule": " || ".join(sorted(merged["rules"])), "samples": merged["samples"][:8],
             "exhaustive": bool(merged["exhaustive"] and nstats > 0),
             "labels": dict(sorted(merged["labels"].items())),
             "known_finding_hits": merged["known"], "shards": nsh,
